@@ -172,6 +172,23 @@ def judge(ctx, tag, coords, paths=PATHS, container="list"):
         if not _same(geoms._plain(g.coordinates), nf):
             ctx.violate("normal_form", f"normal_form:{tag}:{path}", observed=geoms._plain(g.coordinates), expected=nf, spec=sp)
             continue
+        if ctx.every(sp, 3):
+            # the caller owns an accepted geometry: it drags it (coordinates edited in place); validating the same
+            # input again afterwards yields the normal form of THAT INPUT, whatever happened to the earlier object
+            try:
+                from rv.core import scribble
+
+                victim = _attempt(path, tag, coords, container)[1]
+                if scribble.scribble(victim.coordinates) if isinstance(victim.coordinates, list) else False:
+                    ctx.mon("revalidate_after_result_edit")
+                    st2, g2 = _attempt(path, tag, coords, container)
+                    if st2 != "ok" or not _same(geoms._plain(g2.coordinates), nf):
+                        ctx.violate("normal_form", f"normal_form:{tag}:{path}:after_caller_edited_earlier_result",
+                                    observed=geoms._plain(getattr(g2, "coordinates", None)) if st2 == "ok" else repr(g2)[:200], expected=nf, spec=sp)
+                        continue
+            except Exception as e:
+                ctx.violate_exc("rejects_valid", f"rejects_valid:{tag}:{path}:on_repeat", e, spec=sp)
+                continue
         try:
             # a geometry that has merely been looked at (notebook display, repr, dumps) is still the same geometry
             for look in ("_repr_html_", "__repr__", "__str__", "model_dump", "model_dump_json", "geom_type"):
